@@ -171,7 +171,9 @@ def audit(prop):
         text = open(cache).read()
     else:
         names = theorems_of(prop)
-        src = 'import BufrModel.Props.%s\nopen Bufr\n' % prop + ''.join('#print axioms %s\n' % n for n in names)
+        ptxt = open(os.path.join(LEAN, 'BufrModel', 'Props', prop + '.lean')).read()
+        spaces = sorted(set(re.findall(r'^namespace\s+(\S+)', ptxt, re.M)) | {'Bufr'})
+        src = 'import BufrModel.Props.%s\n' % prop + ''.join('open %s\n' % ns for ns in spaces) + ''.join('#print axioms %s\n' % n for n in names)
         apath = os.path.join(cdir, 'Audit_%s.lean' % prop)
         with open(apath, 'w') as f:
             f.write(src)
@@ -259,6 +261,7 @@ class Context(object):
         self.findings = load_known_findings()
         self._seen_viol = set()
         self.violation_count_by_sig = {}
+        self.extra_nontrivial = 0  # distinct non-trivial cases counted in bulk (enumerations)
 
     # -- bookkeeping -----------------------------------------------------------------
     def rng(self, stream):
@@ -325,7 +328,7 @@ class Context(object):
             'theorem_axioms': {k: self.axioms.get(k) for k in self.theorems},
             'undischarged': self.undischarged,
             'evaluations': self.evaluations,
-            'distinct_nontrivial': len(self.nontrivial),
+            'distinct_nontrivial': len(self.nontrivial) + self.extra_nontrivial,
             'rule': self.rule,
             'samples': self.samples[:6],
             'traces_validated_against_impl': self.traces,
